@@ -9,9 +9,15 @@ import (
 
 	"github.com/coinbase/kryptology/pkg/dkg/frost"
 	"github.com/coinbase/kryptology/pkg/sharing"
+	"github.com/libp2p/go-libp2p/core/host"
+	"github.com/libp2p/go-libp2p/core/peer"
+	"github.com/libp2p/go-libp2p/core/protocol"
 
+	"github.com/obolnetwork/charon/cluster"
+	"github.com/obolnetwork/charon/dkg/bcast"
 	pb "github.com/obolnetwork/charon/dkg/dkgpb/v1"
 	"github.com/obolnetwork/charon/dkg/share"
+	"github.com/obolnetwork/charon/p2p"
 )
 
 // This file is only compiled with the "verif" build tag. It exports the unexported FROST entry
@@ -58,4 +64,43 @@ func VerifMakeRound1Response(casts []*pb.FrostRound1Casts, p2ps []*pb.FrostRound
 // VerifMakeRound2Response is makeRound2Response.
 func VerifMakeRound2Response(msgs []*pb.FrostRound2Casts) (map[VerifMsgKey]frost.Round2Bcast, error) {
 	return makeRound2Response(msgs)
+}
+
+// VerifFrostIDs returns the round-1 cast bcast message id, the round-1 p2p protocol id and the
+// round-2 cast bcast message id.
+func VerifFrostIDs() (string, protocol.ID, string) {
+	return round1CastID, round1P2PID, round2CastID
+}
+
+// VerifNewBcastCallback is newBcastCallback.
+func VerifNewBcastCallback(peers map[peer.ID]cluster.NodeIdx, round1CastsRecv chan *pb.FrostRound1Casts,
+	round2CastsRecv chan *pb.FrostRound2Casts, threshold, numVals int,
+) bcast.Callback {
+	return newBcastCallback(peers, round1CastsRecv, round2CastsRecv, threshold, numVals)
+}
+
+// VerifNewP2PCallback is newP2PCallback.
+func VerifNewP2PCallback(p2pNode host.Host, peers map[peer.ID]cluster.NodeIdx, round1P2PRecv chan *pb.FrostRound1P2P, numVals int) p2p.HandlerFunc {
+	return newP2PCallback(p2pNode, peers, round1P2PRecv, numVals)
+}
+
+// VerifNewFrostP2P returns the frostP2P transport over caller supplied channels and broadcast
+// function: newFrostP2P without the handler registrations (the caller feeds the channels, e.g.
+// through VerifNewBcastCallback / VerifNewP2PCallback).
+func VerifNewFrostP2P(p2pNode host.Host, peers map[peer.ID]cluster.NodeIdx, bcastFunc bcast.BroadcastFunc,
+	round1CastsRecv chan *pb.FrostRound1Casts, round1P2PRecv chan *pb.FrostRound1P2P, round2CastsRecv chan *pb.FrostRound2Casts,
+) VerifFrostTransport {
+	peersByShareIdx := make(map[uint32]peer.ID)
+	for pID, nodeIdx := range peers {
+		peersByShareIdx[uint32(nodeIdx.ShareIdx)] = pID
+	}
+
+	return &frostP2P{
+		p2pNode:         p2pNode,
+		peers:           peersByShareIdx,
+		bcastFunc:       bcastFunc,
+		round1CastsRecv: round1CastsRecv,
+		round1P2PRecv:   round1P2PRecv,
+		round2CastsRecv: round2CastsRecv,
+	}
 }
